@@ -14,6 +14,8 @@ From P7 Require Import Prelude Crc32 Decomp Comp RoundTrip.
 From P7 Require Aes.
 From P7 Require AesGen CrcGen.
 From P7gen Require AesBuf HelpersCrc.
+From P7 Require PyPrims DecompGen.
+From P7gen Require DecompChain.
 Open Scope Z_scope.
 
 (* ------------------------------------------------------------------------------------ *)
@@ -565,3 +567,65 @@ Example C01_gen_examples :
   HelpersCrc.calculate_crc32 (fun d v => crc32_update v d) 9 [49;50;51;52;53;54;55;56;57] 0 4 = Ok 3421780262 /\
   Aes.dec_chunks_ok 0 [repeatZ 1 17; repeatZ 2 15] = true.
 Proof. split; [exact CrcGen.ex_gen_crc | reflexivity]. Qed.
+
+(* ---- third wave (stage 7): SevenZipDecompressor._decompress / _read_data / decompress as translated on this run from
+   py7zr/compressor.py (gen/DecompChain.v) ARE Decomp.v's run_chain / read_data / decompress: for every object state, every
+   file content, every max_length and every read-schedule element rd (the most this call's fp.read returns), with the same
+   abstract stage decoders `dstep` on both sides.  DecompGen.st_of o fp is the model state of the object o with the unread
+   file fp; DecompGen.of_st st digest delivered the object of a model state (self.digest / self._delivered are not in
+   Decomp.v's state).  The digest goes through the generated helpers.calculate_crc32 (fuel for its block loop). ---- *)
+
+Theorem C01_gen_decompress_is_model :
+  forall (stage : Type) (dstep : stage -> bytes -> Z -> stage * bytes) (zcrc32 : bytes -> Z -> Z)
+         (self : DecompChain.SevenZipDecompressor stage) (fp : bytes) (fuel : nat) (ml : Z) (rd : nat),
+  DecompChain.SevenZipDecompressor_decompress stage dstep zcrc32 self fp fuel ml rd
+  = (do r <- decompress dstep (DecompGen.st_of stage self fp) ml rd;
+     let '(st', out) := r in
+     do dg <- HelpersCrc.calculate_crc32 zcrc32 fuel out (DecompChain.SevenZipDecompressor_digest self) 1048576;
+     Ok ((DecompGen.of_st stage st' dg (DecompChain.SevenZipDecompressor__delivered self + PyPrims.py_len out), out), fp_rest st')).
+Proof. exact DecompGen.gen_decompress. Qed.
+Print Assumptions C01_gen_decompress_is_model.
+
+Theorem C01_gen_decompress_chain_is_run_chain :
+  forall (stage : Type) (dstep : stage -> bytes -> Z -> stage * bytes) (self : DecompChain.SevenZipDecompressor stage) (fp data : bytes) (ml : Z),
+  DecompChain.SevenZipDecompressor_decompress_chain stage dstep self data ml
+  = (do r <- run_chain dstep (DecompGen.st_of stage self fp) data ml;
+     let '(st', out) := r in
+     Ok (DecompGen.of_st stage st' (DecompChain.SevenZipDecompressor_digest self) (DecompChain.SevenZipDecompressor__delivered self), out)).
+Proof. intros stage dstep. exact (DecompGen.gen_decompress_chain stage dstep (fun _ v => v)). Qed.
+Print Assumptions C01_gen_decompress_chain_is_run_chain.
+
+Theorem C01_gen_read_data_is_model :
+  forall (stage : Type) (self : DecompChain.SevenZipDecompressor stage) (fp : bytes) (rd : nat),
+  DecompChain.SevenZipDecompressor_read_data stage self fp rd
+  = (let '(st1, data) := read_data (DecompGen.st_of stage self fp) rd in
+     Ok ((DecompGen.of_st stage st1 (DecompChain.SevenZipDecompressor_digest self) (DecompChain.SevenZipDecompressor__delivered self), data),
+         fp_rest st1)).
+Proof. exact DecompGen.gen_read_data. Qed.
+Print Assumptions C01_gen_read_data_is_model.
+
+(* with a zlib.crc32 obeying the two laws of Crc32.crc32_update: the model's answer is the code's answer (fuel >= len(result)),
+   and the digest is the running CRC-32 of what was returned *)
+Theorem C01_gen_decompress_accepts :
+  forall (stage : Type) (dstep : stage -> bytes -> Z -> stage * bytes) (zcrc32 : bytes -> Z -> Z),
+  (forall d v, 0 <= v < 2 ^ 32 -> 0 <= zcrc32 d v < 2 ^ 32) ->
+  (forall a b v, 0 <= v < 2 ^ 32 -> zcrc32 (a ++ b) v = zcrc32 b (zcrc32 a v)) ->
+  forall (self : DecompChain.SevenZipDecompressor stage) (fp : bytes) (fuel : nat) (ml : Z) (rd : nat) st' out,
+  0 <= DecompChain.SevenZipDecompressor_digest self < 2 ^ 32 ->
+  decompress dstep (DecompGen.st_of stage self fp) ml rd = Ok (st', out) -> (length out <= fuel)%nat ->
+  DecompChain.SevenZipDecompressor_decompress stage dstep zcrc32 self fp fuel ml rd
+  = Ok ((DecompGen.of_st stage st' (zcrc32 out (DecompChain.SevenZipDecompressor_digest self))
+           (DecompChain.SevenZipDecompressor__delivered self + PyPrims.py_len out), out), fp_rest st').
+Proof. exact DecompGen.gen_decompress_is_model. Qed.
+Print Assumptions C01_gen_decompress_accepts.
+
+(* C01_decompress_len over the code as translated *)
+Theorem C01_gen_decompress_len :
+  forall (stage : Type) (dstep : stage -> bytes -> Z -> stage * bytes) (zcrc32 : bytes -> Z -> Z)
+         (self o' : DecompChain.SevenZipDecompressor stage) fp fp' fuel ml rd out,
+  0 <= DecompChain.SevenZipDecompressor__pos self <= zlen (DecompChain.SevenZipDecompressor__buf self) ->
+  DecompChain.SevenZipDecompressor__unused self = [] -> 0 <= ml ->
+  DecompChain.SevenZipDecompressor_decompress stage dstep zcrc32 self fp fuel ml rd = Ok ((o', out), fp') ->
+  zlen out <= ml.
+Proof. exact DecompGen.gen_decompress_len. Qed.
+Print Assumptions C01_gen_decompress_len.
